@@ -183,6 +183,9 @@ func cmdCheck(args []string) int {
 			assumedContracts = append(assumedContracts, shortFn(k)+" (contract assumed, body not verified)")
 			continue
 		}
+		if ct.implOf != nil && hasTag(ct.implOf.Tags, *prop) {
+			continue // verified below against its interface contract (implObligations)
+		}
 		functions = append(functions, shortFn(k))
 		c := eng.VerifyFunction(fn, ct)
 		ctxs = append(ctxs, c)
@@ -492,7 +495,7 @@ func (e *Engine) implObligations(prop string) ([]*Obligation, []string, []string
 			ct.Kind = "func"
 			ct.Loops = map[int]*LoopSpec{}
 			ct.Asserts = map[string][]*Clause{}
-			if own := e.contracts[fn.RelString(nil)]; own != nil {
+			if own := e.ownContracts[fn.RelString(nil)]; own != nil {
 				ct.Aliases = map[string]string{}
 				if own.Recv != nil && ict.Recv != nil {
 					ct.Aliases[own.Recv.Name] = ict.Recv.Name
